@@ -44,12 +44,16 @@ SF(S, ms, ex) ==
 InUnit(x) == x[2] = 0 \/ (x[1] >= 0 /\ x[1] <= x[2])
 IsClosedHG(S) == \A e \in EdgeSet(S) : \A Y \in SUBSET S.e2n[e] : Cardinality(Y) >= 1 => Y \in EdgeSets(S)
 
-EntryOK(S, e) ==
+\* the exact formulas are stated for hypergraphs without repeated edges; the range of the
+\* scores and their value on downward-closed hypergraphs for every hypergraph
+Formulas(S, e) ==
   /\ Same(e.sed, SED(S, e.ms, e.ex, e.norm))
   /\ Same(e.es, OneMinus(SED(S, e.ms, e.ex, TRUE)))
   /\ Same(e.mfed, MFED(S, e.ms, e.ex, e.norm))
   /\ Same(e.fes, OneMinus(MFED(S, e.ms, e.ex, TRUE)))
   /\ Same(e.sf, SF(S, e.ms, e.ex))
+EntryOK(S, e, multi) ==
+  /\ multi \/ Formulas(S, e)
   /\ InUnit(e.es) /\ InUnit(e.fes) /\ InUnit(e.sf)
   /\ (IsClosedHG(S) => (e.es[2] = 0 \/ REq(e.es, <<1, 1>>)) /\ (e.fes[2] = 0 \/ REq(e.fes, <<1, 1>>))
                         /\ (e.sf[2] = 0 \/ REq(e.sf, <<1, 1>>)))
@@ -58,7 +62,7 @@ Verdict(r) ==
   IF r.anom # <<>> THEN <<"C15:raised." \o r.anom[1]>> ELSE
   LET S == FromJ(r.st) IN
   IF ~Integrity(S) THEN <<"tainted">>
-  ELSE LET bad == SelectSeq([k \in DOMAIN r.obs |-> k], LAMBDA k : ~EntryOK(S, r.obs[k]))
+  ELSE LET bad == SelectSeq([k \in DOMAIN r.obs |-> k], LAMBDA k : ~EntryOK(S, r.obs[k], r.multi))
        IN [k \in DOMAIN bad |-> "C15:" \o r.obs[bad[k]].what]
 
 Init == i = 0
